@@ -22,6 +22,10 @@ def family(name):
         return tuple(_d3(parts[1], parts[2]))
     if parts[0] == 'mix3':
         return tuple(_mix3(parts[1], parts[2]))
+    if parts[0] == 'atmostneg':
+        return tuple(_atmostneg(parts[1]))
+    if parts[0] in ('conn3', 'closure3'):
+        return tuple(_conn3(parts))
     if parts[0] in ('conn1', 'conn2', 'closure', 'conn2s', 'conn1s'):
         return tuple(_conn(parts))
     leaf_ids = _leafids(parts[0])
@@ -150,3 +154,49 @@ def _mix3(leaves, policy):
             for s in (1, -1):
                 for v in spaces.thresholds(ch, s, clip=6):
                     yield spaces.assign_ids(N(None, s, v, ch), policy)
+
+
+def _conn3(parts):
+    """conn3/<leaves>/<policy>: every connective over THREE arguments [X, l1, l2] with X a depth-1 formula over the first two leaves and
+    l1,l2 two leaves (compound mixed with two atoms).  closure3: Not / Imply / XNor wrappers of those."""
+    kind, leaves, policy = parts[0], _leafids(parts[1]), parts[2]
+    lv = [spaces.leaf(i) for i in leaves]
+    d1 = spaces.conn_d1(leaves[:2], 2)
+    base = []
+    for X in d1:
+        for l1, l2 in itertools.combinations(lv, 2):
+            args = [X, l1, l2]
+            base.append(spaces.C('All', None, args))
+            base.append(spaces.C('Any', None, args))
+            for k in range(1, 5):
+                base.append(spaces.C('AtLeast', None, args, k))
+            for k in range(0, 4):
+                base.append(spaces.C('AtMost', None, args, k))
+            base.append(spaces.C('Xor', None, args))
+            base.append(spaces.C('XNor', None, args))
+    if kind == 'closure3':
+        z = L('z')
+        out = []
+        for X in base:
+            if X[1] in ('All', 'Any', 'AtLeast'):
+                out.append(spaces.C('Not', None, [X]))
+                out.append(spaces.C('Imply', None, [X, z]))
+                out.append(spaces.C('XNor', None, [X, z]))
+        base = out
+    return [spaces.name_ids(f, policy) for f in base]
+
+
+def _atmostneg(policy):
+    """AtMost / AtLeast objects with NEGATIVE thresholds over integer leaves (meaningful only there), alone and nested."""
+    t, n, a = spaces.leaf('t'), spaces.leaf('n'), spaces.leaf('a')
+    out = []
+    for args in ([t], [n], [t, n], [t, a], [n, a]):
+        for k in range(-4, 3):
+            am = spaces.C('AtMost', None, args, k)
+            out.append(am)
+            out.append(spaces.C('All', None, [am, spaces.leaf('b')]))
+            out.append(spaces.C('Any', None, [am, spaces.leaf('b')]))
+        for k in range(1, 4):
+            al = spaces.C('AtLeast', None, args, k)
+            out.append(spaces.C('Any', None, [al, spaces.leaf('b')]))
+    return [spaces.name_ids(f, policy) for f in out]
